@@ -196,7 +196,9 @@ CUSTOMARY = ['60', '100', '200', '300', '400', '600', '800', '1000', '1500', 'MI
              '2000SC', '3000SC', '4x100', '4x400', '4x200', 'HJ', 'PV', 'LJ', 'TJ', 'SP', 'DT', 'HT', 'JT', 'WT', 'DEC', 'HEP', 'PEN',
              'XC', '5K', '10K', 'HM', 'MAR', '3000W', '20KW', 'T30', '24HR', 'H1', 'L2', 'BAL',
              '100m', '200m', '400m', '800m', '1500m', '5000m', '10000m',
-             'hj', 'lj', 'sp', 'SP7.26K', 'DT1.5K', 'JT800', 'HT4K', 'SHJ', 'SLJ', 'dec', '4xRELAY', '4xDMR', '4x100H', '3x800', 'xc', '5M', '10M']
+             'hj', 'lj', 'sp', 'SP7.26K', 'DT1.5K', 'JT800', 'HT4K', 'SHJ', 'SLJ', 'dec', '4xRELAY', '4xDMR', '4x100H', '3x800', 'xc', '5M', '10M',
+             '100y', '100Y', '220y', '440y', '880Y', '100 y', '2MILE', '2MT', '5MT', '4x110y' if False else '4x200', 'SC', 'LH', 'SH', '3KW', '50KW', 'HMW', 'MARW',
+             '4xSMR', '4xSSMR', '4xSWR', '4xSDMR', '1.5M', '26.2M', '0.5K', '100K', '150K', '999K']
 
 
 def texts(rnd, n):
